@@ -117,7 +117,13 @@ func shapeForC12(seed uint64, i int) MsgSpec {
 	case 7: // no part at all
 		return MsgSpec{Token: tok, From: "a@b.example", To: []string{"c@d.example"}, Subject: "s"}
 	}
-	return GenMsg(r, tok, o)
+	m := GenMsg(r, tok, o)
+	if r.Chance(1, 4) {
+		// preformatted header fields (written by a path of their own) and fields with several values
+		m.Preform = [][2]string{{"X-Pre-Signature", "v=1; a=sim;\r\n h=from:to:subject;\r\n b=abcdef"}, {"X-Pre-Two", "two"}}
+		m.Headers = append(m.Headers, [2]string{"Keywords", "one\x1ftwo\x1fthree"})
+	}
+	return m
 }
 
 func (p *c12) Gen(seed uint64, i int, tier string) (any, bool) {
@@ -288,6 +294,10 @@ func (p *c12) exec(t *testing.T, scAny any) Outcome {
 			if !spec.canFailOpen(j) {
 				return
 			}
+		} else if strings.HasSuffix(where, "!isdir") {
+			if !spec.canFailIsDir(j) {
+				return
+			}
 		} else if strings.HasSuffix(where, "!seek") {
 			if !spec.canFailSeek(j) {
 				return
@@ -369,6 +379,8 @@ func (p *c12) exec(t *testing.T, scAny any) Outcome {
 			runProducer(j, "start!open", "", -1)
 			// the source can be read but not rewound
 			runProducer(j, "end!seek", "", -1)
+			// the path opens, but reading it fails at once (it is a directory now)
+			runProducer(j, "start!isdir", "", -1)
 		}
 		// combinations: one producer fault and one sink fault, sampled
 		r := sim.NewRand(sc.Seed)
